@@ -28,6 +28,10 @@ static Verdict run(const Case &c) {
     std::set<Mac> forbidden_edst;  // third-station destinations A emitted to
     int towards_b = 0, towards_third = 0;
     std::set<std::pair<int, uint64_t>> kinds_b;
+    if (c.c(10)) {   // the mapper's first contact is a quick-discovery Discover (ToS 1); its topology session follows without a Reset in between
+        (void)w.deliver(ia, mk_discover(M, M, 1, 1, (uint16_t)c.c(10), {}));
+        (void)w.deliver(ib, mk_discover(M, M, 1, 1, (uint16_t)c.c(10), {}));
+    }
     (void)w.deliver(ia, mk_discover(M, M, 0, 1, 1, {}));
     (void)w.deliver(ib, mk_discover(M, M, 0, 1, 1, {}));
     if (ic3 >= 0) (void)w.deliver(ic3, mk_discover(M, M, 0, 1, 1, {}));
@@ -128,6 +132,7 @@ int main(int argc, char **argv) {
         Case c; h.to_case(c);
         c.cfg.push_back(0x020000000000LL | *gx::range<int64_t>(1, 0xFFFFFF));   // B's address (cfg[8])
         c.cfg.push_back(*gx::pick({1, 1, 1, 0}));                                 // a third responder on the segment (cfg[9])
+        c.cfg.push_back(*gx::pick({0, 0, 0, 1, 7}));                              // first contact through quick discovery with this generation (cfg[10], 0 = no)
         if (*gx::chance(20)) {
             // capacity family: A emits about as many frames with pairwise distinct sources towards B as one QueryResp of B holds, then B is queried
             size_t capq = (h.mtu - 34) / 20, cape = (h.mtu - 34) / 14;
